@@ -10,6 +10,7 @@ package main
 
 import (
 	"go/ast"
+	"go/constant"
 	"go/token"
 	"go/types"
 	"strings"
@@ -139,6 +140,11 @@ func (c *Ctx) normByteStrings(t Term) Term {
 			}
 		case TLit:
 			return len(x.Elts) == 0
+		case TSlice:
+			if x.Hi != nil {
+				k, ok := constInt(x.Hi)
+				return ok && k == 0 // scratch[:0]
+			}
 		}
 		return false
 	}
@@ -155,7 +161,34 @@ func (c *Ctx) normByteStrings(t Term) Term {
 	var bytesType types.Type = types.NewSlice(types.Typ[types.Uint8])
 	return mapBU(t, func(t Term) Term {
 		switch x := t.(type) {
+		case TLit:
+			// []byte{'\n'}: a byte-slice literal of constants is the bytes of that string
+			if sl, ok := x.Type.Underlying().(*types.Slice); ok && len(x.Elts) > 0 {
+				if b, ok := sl.Elem().Underlying().(*types.Basic); ok && b.Kind() == types.Uint8 {
+					str := ""
+					for _, e := range x.Elts {
+						k, isK := constInt(e)
+						if !isK || k < 0 || k > 127 {
+							return t
+						}
+						str += string(rune(k))
+					}
+					return TConv{To: bytesType, X: TConst{constant.MakeString(str)}}
+				}
+			}
+			return t
 		case TCall:
+			if x.Fun != nil && x.Recv != nil && x.Fun.FullName() == "(*bytes.Buffer).Bytes" && len(x.Args) == 0 {
+				// buffer.Bytes() = []byte(buffer.String())
+				if obj, _, _ := types.LookupFieldOrMethod(x.Fun.Type().(*types.Signature).Recv().Type(), true, x.Fun.Pkg(), "String"); obj != nil {
+					if sf, ok := obj.(*types.Func); ok {
+						y := x
+						y.Fun, y.Name = sf, "String"
+						return TConv{To: bytesType, X: y}
+					}
+				}
+				return t
+			}
 			if x.Fun == nil || x.Fun.Pkg() == nil || x.Recv != nil {
 				return t
 			}
@@ -180,6 +213,11 @@ func (c *Ctx) normByteStrings(t Term) Term {
 									y.Args[i] = si
 								}
 							}
+							if rs := x.Fun.Type().(*types.Signature).Results(); rs.Len() == 1 {
+								if _, isSl := rs.At(0).Type().Underlying().(*types.Slice); isSl {
+									return TConv{To: bytesType, X: y} // a bytes function that returns bytes
+								}
+							}
 							return y
 						}
 					}
@@ -190,6 +228,23 @@ func (c *Ctx) normByteStrings(t Term) Term {
 				if s0, ok := asBytes(x.Args[0]); ok {
 					if _, isStr := isConstStringTerm(x.Args[1]); isStr {
 						return TConv{To: bytesType, X: TBin{Op: token.ADD, X: s0, Y: x.Args[1]}}
+					}
+				}
+			}
+			if x.Name == "append" && len(x.Args) >= 2 {
+				// append(bytes, '.', '0'): constant bytes one by one
+				if s0, ok := asBytes(x.Args[0]); ok {
+					str, all := "", true
+					for _, e := range x.Args[1:] {
+						k, isK := constInt(e)
+						if !isK || k < 0 || k > 127 {
+							all = false
+							break
+						}
+						str += string(rune(k))
+					}
+					if ce, isCall := x.Site.(*ast.CallExpr); all && isCall && !ce.Ellipsis.IsValid() {
+						return TConv{To: bytesType, X: TBin{Op: token.ADD, X: s0, Y: TConst{constant.MakeString(str)}}}
 					}
 				}
 			}
